@@ -62,8 +62,24 @@ pub enum Op {
     BulkAdd(u64),
     /// macro letter: cancel ids 100..100+k
     BulkCancel(u64),
+    /// macro letter: add n dormant orders IC(0,2) under ids 300..
+    BulkDormant(u64),
     /// macro letter: k same-price quantity amendments (to 1) of one order (many stale tickets)
     Churn(u64, u64),
+}
+
+/// a dormant order (nothing displayed, nothing it could replenish with: iceberg 0 / 2) for the macro letter
+pub fn dormant_order(i: u64, price: u64) -> Ord_ {
+    OrderType::IcebergOrder {
+        id: oid(300 + i),
+        price,
+        visible_quantity: 0,
+        hidden_quantity: 2,
+        side: Side::Buy,
+        timestamp: 3000 + i,
+        time_in_force: pricelevel::TimeInForce::Gtc,
+        extra_fields: (),
+    }
 }
 
 pub fn bulk_order(i: u64, price: u64) -> Ord_ {
@@ -129,6 +145,7 @@ impl LevelCfg {
             Op::Restore(p) => format!("restore via {p:?}"),
             Op::BulkAdd(n) => format!("add {n} orders S(2) as #100..#{}", 99 + n),
             Op::BulkCancel(k) => format!("cancel #100..#{}", 99 + k),
+            Op::BulkDormant(n) => format!("add {n} dormant orders IC(0,2) as #300..#{}", 299 + n),
             Op::Churn(id, k) => format!("{k} x update_quantity #{id} -> 1"),
         }
     }
@@ -452,6 +469,22 @@ impl<'a> Run<'a> {
                     Err(BudgetOrPanic::Panic(m)) => ImplRes::Panicked(m),
                 }
             }
+            Op::BulkDormant(n) => {
+                let price = cfg.price;
+                let r = self.rec.with_budget(CALL_BUDGET * 10, || {
+                    for i in 0..*n {
+                        self.level.add_order(dormant_order(i, price));
+                    }
+                });
+                match r {
+                    Ok(()) => {
+                        self.n_added += *n;
+                        ImplRes::Count(*n)
+                    }
+                    Err(BudgetOrPanic::Budget) => ImplRes::NoReturn,
+                    Err(BudgetOrPanic::Panic(m)) => ImplRes::Panicked(m),
+                }
+            }
             Op::BulkCancel(k) => {
                 let r = self.rec.with_budget(CALL_BUDGET * 10, || {
                     let mut ok = 0u64;
@@ -522,6 +555,12 @@ impl<'a> Run<'a> {
                 Op::BulkAdd(n) => {
                     for i in 0..*n {
                         m.add(bulk_order(i, cfg.price));
+                    }
+                    ImplRes::Count(*n)
+                }
+                Op::BulkDormant(n) => {
+                    for i in 0..*n {
+                        m.add(dormant_order(i, cfg.price));
                     }
                     ImplRes::Count(*n)
                 }
@@ -682,8 +721,10 @@ impl LevelSubject {
             let n = rec(o).id;
             if let Some(k) = alphabet_id(n) {
                 m |= 1 << k;
-            } else if (100..1000).contains(&n) {
+            } else if (100..300).contains(&n) {
                 m |= 1;
+            } else if (300..1000).contains(&n) {
+                m |= 1 << 15;
             }
         }
         m
@@ -753,6 +794,12 @@ impl Subject for LevelSubject {
             }
             Op::BulkCancel(_) => {
                 if aux.resting & 1 == 0 {
+                    return StepOut::disabled(*aux);
+                }
+            }
+            Op::BulkDormant(_) => {
+                // bit 15: some dormant bulk id (#300..) is resting
+                if aux.resting & (1 << 15) != 0 {
                     return StepOut::disabled(*aux);
                 }
             }
@@ -1084,7 +1131,7 @@ impl Subject for LevelSubject {
             };
             match min_variant(new_alive) {
                 None => {
-                    if !is_upd && !matches!(op, Op::Add(..) | Op::BulkAdd(_)) || e.drain.is_some() {
+                    if !is_upd && !matches!(op, Op::Add(..) | Op::BulkAdd(_) | Op::BulkDormant(_)) || e.drain.is_some() {
                         vio(&mut out, format!(
                             "C04 time priority: the implementation matches neither the ideal model nor any known-deviation variant; {}; state before: {} tickets-after={:?}",
                             disagreements.join(" | "), e.pre.describe(), e.tickets));
